@@ -79,6 +79,22 @@ func isRefType(t types.Type) bool {
 	return false
 }
 
+// carriesRefs: a struct / array type with reference-typed parts (copying it shares them).
+func carriesRefs(t types.Type) bool {
+	switch u := t.Underlying().(type) {
+	case *types.Struct:
+		for i := 0; i < u.NumFields(); i++ {
+			ft := u.Field(i).Type()
+			if isRefType(ft) || carriesRefs(ft) {
+				return true
+			}
+		}
+	case *types.Array:
+		return isRefType(u.Elem()) || carriesRefs(u.Elem())
+	}
+	return false
+}
+
 func (oc *ownerCtx) add(fn, kind string) { oc.sites[[2]string{fn, kind}] = true }
 
 // origins classifies expression e inside function fd of package sp.
@@ -106,6 +122,9 @@ func (oc *ownerCtx) origins(sp *skelPkg, alias string, fd *ast.FuncDecl, e ast.E
 		v, ok := obj.(*types.Var)
 		if !ok {
 			return []string{"unknown:" + x.Name}
+		}
+		if v.Parent() == sp.p.pkg.Scope() {
+			return []string{"global:" + alias + "." + v.Name()}
 		}
 		if seen[v] {
 			return nil
@@ -189,6 +208,15 @@ func (oc *ownerCtx) origins(sp *skelPkg, alias string, fd *ast.FuncDecl, e ast.E
 		if x.Op == token.AND {
 			if cl, ok := x.X.(*ast.CompositeLit); ok {
 				return oc.origins(sp, alias, fd, cl, depth+1, seen)
+			}
+			// &local where local is a function-local VALUE (struct, array, scalar): the
+			// address of a private copy - fresh, unless the value itself carries references
+			if id, ok := x.X.(*ast.Ident); ok {
+				if v, ok := info.Uses[id].(*types.Var); ok && v.Parent() != sp.p.pkg.Scope() && !v.IsField() {
+					if !isRefType(v.Type()) && !carriesRefs(v.Type()) {
+						return []string{"fresh:addr-of-local-copy"}
+					}
+				}
 			}
 			return oc.origins(sp, alias, fd, x.X, depth+1, seen)
 		}
@@ -310,29 +338,7 @@ func (oc *ownerCtx) enqueue(full string) {
 	}
 }
 
-func genOwner() (string, string) {
-	aliasDir := map[string]string{}
-	for _, pd := range pkgDirs {
-		aliasDir[pd.alias] = pd.dir
-	}
-	oc := &ownerCtx{sites: map[[2]string]bool{}, done: map[string]bool{}, pkgs: map[string]*skelPkg{}, byPkg: map[*types.Package]string{}}
-	for _, pd := range pkgDirs {
-		p, err := load(pd.alias, pd.dir)
-		if err != nil {
-			refuse("owner: cannot load %s: %v", pd.alias, err)
-			continue
-		}
-		oc.pkgs[pd.alias] = newSkelPkg(p)
-		oc.byPkg[p.pkg] = pd.alias
-	}
-	for _, s := range ownerSeeds {
-		sp := oc.pkgs[s.alias]
-		if sp == nil || sp.decls[s.name] == nil {
-			refuse("owner: entry function %s.%s not found", s.alias, s.name)
-			continue
-		}
-		oc.enqueue(s.alias + "." + s.name)
-	}
+func (oc *ownerCtx) drain() {
 	for len(oc.work) > 0 {
 		full := oc.work[0]
 		oc.work = oc.work[1:]
@@ -397,6 +403,76 @@ func genOwner() (string, string) {
 			return true
 		})
 	}
+}
+
+func genOwner() (string, string) {
+	aliasDir := map[string]string{}
+	for _, pd := range pkgDirs {
+		aliasDir[pd.alias] = pd.dir
+	}
+	oc := &ownerCtx{sites: map[[2]string]bool{}, done: map[string]bool{}, pkgs: map[string]*skelPkg{}, byPkg: map[*types.Package]string{}}
+	for _, pd := range pkgDirs {
+		p, err := load(pd.alias, pd.dir)
+		if err != nil {
+			refuse("owner: cannot load %s: %v", pd.alias, err)
+			continue
+		}
+		oc.pkgs[pd.alias] = newSkelPkg(p)
+		oc.byPkg[p.pkg] = pd.alias
+	}
+	for _, s := range ownerSeeds {
+		sp := oc.pkgs[s.alias]
+		if sp == nil || sp.decls[s.name] == nil {
+			refuse("owner: entry function %s.%s not found", s.alias, s.name)
+			continue
+		}
+		oc.enqueue(s.alias + "." + s.name)
+	}
+	oc.drain()
+	// ---- public API surface: every exported function / method of the non-internal packages
+	// that returns a reference-typed value is a root as well
+	apiRoots := map[string]bool{}
+	for _, pd := range pkgDirs {
+		if strings.HasPrefix(pd.dir, "internal") {
+			continue
+		}
+		sp := oc.pkgs[pd.alias]
+		if sp == nil {
+			continue
+		}
+		for _, name := range sp.names {
+			fd := sp.decls[name]
+			if !ast.IsExported(fd.Name.Name) {
+				continue
+			}
+			if fd.Recv != nil {
+				// methods of exported types only
+				if i := strings.Index(name, "."); i > 0 && !ast.IsExported(name[:i]) {
+					continue
+				}
+			}
+			sig, _ := sp.p.info.Defs[fd.Name].Type().(*types.Signature)
+			if sig == nil {
+				continue
+			}
+			has := false
+			for k := 0; k < sig.Results().Len(); k++ {
+				if isRefType(sig.Results().At(k).Type()) {
+					has = true
+				}
+			}
+			if has {
+				apiRoots[pd.alias+"."+name] = true
+				oc.enqueue(pd.alias + "." + name)
+			}
+		}
+	}
+	oc.drain()
+	var apiList []string
+	for k := range apiRoots {
+		apiList = append(apiList, k)
+	}
+	sort.Strings(apiList)
 	var keys [][2]string
 	for k := range oc.sites {
 		keys = append(keys, k)
@@ -418,6 +494,7 @@ func genOwner() (string, string) {
 		}
 		fmt.Fprintf(&b, `("%s", "%s")`, k[0], strings.ReplaceAll(k[1], `"`, "'"))
 	}
-	b.WriteString("].\n")
+	b.WriteString("].\n\n")
+	fmt.Fprintf(&b, "(* exported functions / methods of the public (non-internal) packages that return a\n   reference-typed value: all of them are analysed above *)\nDefinition api_reference_returning : list string :=\n  %s.\n", wrap(coqStrList(apiList)))
 	return "Owner.v", b.String()
 }
